@@ -910,7 +910,11 @@ def compare(case, res, replies):
     if "err" in m:
         return "model driver error: %s" % m["err"]
     if "e" in res:
+        if case["op"] == "split" and m.get("raised") == res["e"]:
+            return None     # the model predicts this exception (the real run ends with it)
         return "impl raised %s (%s); model %s" % (res["e"], res.get("msg"), str(m)[:300])
+    if case["op"] == "split" and m.get("raised"):
+        return "the model predicts the exception %s, the real run did not raise" % m["raised"]
     if res.get("nested_shared"):
         return ("the real run shares %d nested mutable object(s) between different root objects (the model assumes none)"
                 % res["nested_shared"])
@@ -1050,7 +1054,8 @@ def gen_branch(rng, kind=None, nsteps=None, lists=False):
     term = None
     if kind == "fc":
         # Sum / Mean need numeric data
-        term = rng.choice(([] if lists else [{"a": "sum"}, {"a": "sum"}, {"a": "mean", "seq": None, "poe": True}])
+        term = rng.choice(([] if lists else [{"a": "sum"}, {"a": "sum"}, {"a": "mean", "seq": None, "poe": True},
+                                             {"a": "mean", "seq": None, "poe": False}])
                           + [{"a": "count", "name": rng.choice(NAMES)}, {"a": "store"}, {"a": "keeplast"}])
     elif kind == "fr":
         term = rng.choice([{"a": "reqsum"}, {"a": "reqstore"}])
@@ -1126,7 +1131,9 @@ def gen_split_case(rng, mode=None, aliased=None, copy_buf=None):
     copy_buf = (rng.random() < 0.85) if copy_buf is None else copy_buf
     bufsize = rng.choice([1, 2, 3, max(n, 1), n + 1, 1000, None])
     return {"op": "split", "mode": mode, "branches": branches, "bufsize": bufsize, "copy_buf": copy_buf,
-            "heap": heap, "flow": flow, "aliased": aliased, "nokw": rng.random() < 0.6}
+            "heap": heap, "flow": flow, "aliased": aliased, "nokw": rng.random() < 0.6,
+            # a Mean that is never filled raises LenaZeroDivisionError and ends the whole run
+            "may_raise": any(b.get("term") and b["term"].get("poe") is False for b in branches)}
 
 
 _SUM, _CNT = {"a": "sum"}, {"a": "count", "name": "n"}
